@@ -501,11 +501,73 @@ def judge_gyr(c, real, ref_desc, inv):
     return None
 
 
+# ----------------------------------------------------------------------------- monitors: proved statements evaluated on the REAL output
+
+def monitors(c, rng=None):
+    """C17_s2_nonpos, C17_tetra_le_one / order independence (relabelling), C17_nematic_tensor (symmetric, traceless for
+    unit vectors), C17_gyration_bounds / translation, on the real routines.  Returns reason or None."""
+    k = c["kind"]
+    if k == "s2":
+        real = real_s2(c)
+        bad = [(t, i) for t in range(real.shape[0]) for i in range(real.shape[1]) if real[t, i] > 1e-9]
+        if bad:
+            return f"monitor s2_nonpos: S2{list(bad[0])} = {real[bad[0]]!r} > 0"
+    elif k == "tetra":
+        real = real_tetra(c)
+        if np.nanmax(real) > 1 + 1e-9:
+            return f"monitor tetra_le_one: max q = {np.nanmax(real)!r}"
+        if rng is not None:
+            perm = list(range(c["N"]))
+            rng.shuffle(perm)
+            c2 = dict(c, pos=[c["pos"][p] for p in perm], motif=False)
+            r2 = real_tetra(c2)
+            _, oks = oracle_tetra(c)
+            for new, old in enumerate(perm):
+                if oks[old] and not common.close(r2[new], real[old], 1e-9):
+                    return f"monitor tetra relabelling: particle {old} q {real[old]!r} → {r2[new]!r} after permuting the particle order {perm}"
+    elif k == "nematic":
+        _, Q = real_nematic(c, False)
+        if np.abs(Q - np.swapaxes(Q, 2, 3)).max(initial=0) > 1e-12:
+            return "monitor nematic_tensor: Q not symmetric"
+        if c["unit"] and np.abs(np.trace(Q, axis1=2, axis2=3)).max(initial=0) > 1e-9:
+            return "monitor nematic_tensor: Q not traceless for unit vectors"
+    elif k == "gyr":
+        real, _, bad = canon_gyr(real_gyr(c))
+        if bad:
+            return bad
+        tr = real[0] ** 2
+        tol = 1e-9 * max(1.0, tr)
+        if c["d"] == 3:
+            if real[1] < -tol or real[2] < -tol or (tr > 1e-12 and not (-1e-9 <= real[3] <= 1 + 1e-9)):
+                return f"monitor gyration_bounds: asphericity {real[1]!r}, acylindricity {real[2]!r}, anisotropy {real[3]!r}"
+        elif real[1] < -tol:
+            return f"monitor gyration_bounds: acylindricity {real[1]!r}"
+        if rng is not None:
+            sh = [rng.randint(-300, 300) for _ in range(c["d"])]
+            c2 = dict(c, pos=[["{:.2f}".format(float(Fraction(x)) + sh[kk] / 100.0) for kk, x in enumerate(p)] for p in c["pos"]])
+            r2, _, _ = canon_gyr(real_gyr(c2))
+            for a, b in zip(real[:-1], r2[:-1]):
+                if abs(a - b) > 1e-8 * max(1.0, tr):
+                    return f"monitor gyration translation: descriptor {a!r} → {b!r} after shifting the cloud by {sh}/100"
+    return None
+
+
 # ----------------------------------------------------------------------------- judging the REAL code against the property
 
 def failing(c):
     """does the REAL code contradict the property's formulas on this input?  returns reason or None.
-    Uses only the brute-force oracles (never the Lean model)."""
+    Uses only the brute-force oracles and the monitors (never the Lean model)."""
+    why = _failing(c)
+    if why:
+        return why
+    try:
+        import random
+        return monitors(c, random.Random(0))
+    except Exception as e:
+        return f"raised {type(e).__name__}: {e}"
+
+
+def _failing(c):
     k = c["kind"]
     try:
         if k == "s2":
@@ -716,6 +778,14 @@ def run_cases(run, cases):
         if status == "skip":
             continue
         run.count(lines[a], nontrivial(c), sample={"op": lines[a][:300], "model": outs[a][:200]})
+        if status == "ok":
+            try:
+                why = monitors(c, run.rng)
+            except Exception as e:
+                why = f"real code raised {type(e).__name__}: {e}"
+            if why:
+                status = "dis"
+                run.coverage["monitor_failures"] = run.coverage.get("monitor_failures", 0) + 1
         if status == "dis":
             dis.append((c, why))
     return dis
@@ -723,7 +793,7 @@ def run_cases(run, cases):
 
 def n_cases(tier):
     return {"s2": 40, "tetra": 60, "nematic": 80, "gyr": 120} if tier == "quick" else \
-        {"s2": 500, "tetra": 1500, "nematic": 2000, "gyr": 3000}
+        {"s2": 1500, "tetra": 4000, "nematic": 5000, "gyr": 8000}
 
 
 def correspond(run):
